@@ -43,8 +43,8 @@ __wrap_timerfd_settime(int fd, int flags, const struct itimerspec *n, struct iti
 enum { H_ARRIVE = 1, H_CLOSE, H_FIRE, H_ENABLE, H_DRAIN };
 typedef struct hstep_s { uint8_t op, k; } hstep_t;
 #define MAXH 12
-enum { POL_CONTINUE = 0, POL_STOP_AT_1, POL_STOP_AT_2, POL_DESTROY_AT_1, POL_DESTROY_AT_2, POL_NONE_AT_1_THEN_ENABLE, POL_N };
-static const char *polname[] = { "continue", "stop@1", "stop@2", "destroy@1", "destroy@2", "none@1+enable" };
+enum { POL_CONTINUE = 0, POL_STOP_AT_1, POL_STOP_AT_2, POL_DESTROY_AT_1, POL_DESTROY_AT_2, POL_NONE_AT_1_THEN_ENABLE, POL_NONE_AT_2_THEN_ENABLE, POL_N };
+static const char *polname[] = { "continue", "stop@1", "stop@2", "destroy@1", "destroy@2", "none@1+enable", "none@2+enable" };
 #define TIMEOUT_MS 3600000ull
 
 typedef struct cfg_s {
@@ -54,6 +54,7 @@ typedef struct cfg_s {
 	int	sfio;		/* shedule_first_io argument */
 	int	timeout;	/* 0 / 1 */
 	int	size, off, ts;	/* buffer window */
+	int	used_zero;	/* 1: buf->used starts at 0 although the window starts at off > 0 */
 	int	pol;
 	int	pre;		/* number of history steps applied before the task is started */
 	int	nh;
@@ -95,8 +96,8 @@ cfail(const char *clause, const char *fmt, ...) {
 static void
 case_desc(char *b, size_t n) {
 	int i; size_t o;
-	o = (size_t)snprintf(b, n, "%s evfl=%d every=%d sfio=%d tmo=%d win(size=%d,off=%d,ts=%d) pol=%s pre=%d hist:", C.send ? "send" : "recv",
-	    C.evflags, C.every_read, C.sfio, C.timeout, C.size, C.off, C.ts, polname[C.pol], C.pre);
+	o = (size_t)snprintf(b, n, "%s evfl=%d every=%d sfio=%d tmo=%d win(size=%d,off=%d,ts=%d,used0=%d) pol=%s pre=%d hist:", C.send ? "send" : "recv",
+	    C.evflags, C.every_read, C.sfio, C.timeout, C.size, C.off, C.ts, C.used_zero ? 0 : C.off, polname[C.pol], C.pre);
 	for (i = 0; i < C.nh && o + 12 < n; i ++) {
 		switch (C.h[i].op) {
 		case H_ARRIVE: o += (size_t)snprintf(b + o, n - o, " +%d", C.h[i].k); break;
@@ -119,8 +120,8 @@ check_buffer(const char *when) {
 	if ((int)buf.transfer_size != C.ts - consumed)
 		cfail("cursor-inconsistent", "%s: offset advanced by %d but transfer_size went %d -> %zu", when, consumed, C.ts, buf.transfer_size);
 	if (!C.send) {
-		if ((int)buf.used != C.off + consumed)
-			cfail("cursor-inconsistent", "%s: offset advanced by %d but used is %zu (was %d)", when, consumed, buf.used, C.off);
+		if ((int)buf.used != (C.used_zero ? 0 : C.off) + consumed)
+			cfail("cursor-inconsistent", "%s: offset advanced by %d but used is %zu (was %d)", when, consumed, buf.used, C.used_zero ? 0 : C.off);
 		if (consumed > arrived)
 			cfail("bytes-invented", "%s: %d bytes in the buffer but only %d arrived", when, consumed, arrived);
 		for (i = 0; i < consumed && i < 16; i ++) {
@@ -189,7 +190,10 @@ task_cb(tp_task_p tptask, int error, io_buf_p b, uint32_t eof, size_t transfered
 		if (ncb == (POL_DESTROY_AT_1 == C.pol ? 1 : 2)) { tp_task_destroy(task); task_dead = 1; task_destroyed = 1; return (TP_TASK_CB_NONE); }
 		break;
 	case POL_NONE_AT_1_THEN_ENABLE:
-		if (1 == ncb && 0 != (C.evflags & TP_F_DISPATCH)) { task_paused = 1; paused_unscheduled = in_start; return (TP_TASK_CB_NONE); }
+	case POL_NONE_AT_2_THEN_ENABLE:
+		if (((POL_NONE_AT_1_THEN_ENABLE == C.pol) ? 1 : 2) == ncb && 0 != (C.evflags & TP_F_DISPATCH)) {
+			task_paused = 1; paused_unscheduled = in_start; return (TP_TASK_CB_NONE);
+		}
 		break;
 	}
 	return (TP_TASK_CB_CONTINUE);
@@ -314,7 +318,7 @@ run_case(void) {
 	buf.size = (size_t)C.size;
 	buf.offset = (size_t)C.off;
 	buf.transfer_size = (size_t)C.ts;
-	buf.used = C.send ? (size_t)(C.off + C.ts) : (size_t)C.off;
+	buf.used = C.used_zero ? 0 : (C.send ? (size_t)(C.off + C.ts) : (size_t)C.off);
 	if (C.send)
 		memcpy(bufmem + 8 + C.off, PAY, (size_t)C.ts);
 	rc = tp_thread_attach_first(tp);
@@ -399,7 +403,7 @@ gen_hist(int left, int used_close, int used_fire, int used_enable) {
 		gen_hist(left, used_close, 1, used_enable);
 		C.nh --;
 	}
-	if (POL_NONE_AT_1_THEN_ENABLE == C.pol && !used_enable && C.nh > 0) {
+	if ((POL_NONE_AT_1_THEN_ENABLE == C.pol || POL_NONE_AT_2_THEN_ENABLE == C.pol) && !used_enable && C.nh > 0) {
 		C.h[C.nh].op = H_ENABLE; C.h[C.nh].k = 0; C.nh ++;
 		gen_hist(left, used_close, used_fire, 1);
 		C.nh --;
@@ -433,7 +437,8 @@ main(int argc, char **argv) {
 	for (C.pol = 0; C.pol < POL_N; C.pol ++) {
 		C.evflags = evf[f];
 		C.size = wins[w][0]; C.off = wins[w][1]; C.ts = wins[w][2];
-		if (POL_NONE_AT_1_THEN_ENABLE == C.pol && TP_F_DISPATCH != C.evflags)
+		C.used_zero = 0;
+		if ((POL_NONE_AT_1_THEN_ENABLE == C.pol || POL_NONE_AT_2_THEN_ENABLE == C.pol) && TP_F_DISPATCH != C.evflags)
 			continue;
 		if (TP_F_ONESHOT == C.evflags && POL_CONTINUE != C.pol)
 			continue;
@@ -441,6 +446,12 @@ main(int argc, char **argv) {
 			continue;	/* quick: thin out the product, every option value still occurs */
 		C.nh = 0; C.pre = 0;
 		gen_hist(C.send ? C.ts : payload_len, 0, 0, 0);
+		/* the same window with buf->used == 0 (the caller tracks "used" itself): only where it differs */
+		if (C.off > 0 && POL_CONTINUE == C.pol && 0 == C.timeout) {
+			C.used_zero = 1; C.nh = 0; C.pre = 0;
+			gen_hist(C.send ? C.ts : payload_len, 0, 0, 0);
+			C.used_zero = 0;
+		}
 	}
 	return (vh_finish());
 }
